@@ -551,6 +551,12 @@ class Interp:
 
     # ------------------------------------------------------------------ truthiness & booleans
     def truth(self, v):
+        if isinstance(v, Sym) and v.ty == 'str' and not z3.is_seq(v.t):
+            # a string of the opaque sort: true iff it has at least one character (through the contract's len() model)
+            hk = self.hooks.get('str.len')
+            if hk is None:
+                raise Unsupported('truth value of an opaque string')
+            return ops.compare('Gt', hk(self, v), 0, self.ctx)
         r = ops.truth_basic(v)
         if r is not NotImplemented:
             return r
